@@ -409,3 +409,35 @@ func InstrStr(in ssa.Instruction) string {
 }
 
 var _ = types.Identical
+
+// TruthImplies returns conditions that hold whenever the boolean v is true:
+// v itself; for a short-circuit conjunction (a phi all of whose edges but one
+// are the constant false) the conditions under which the block of the one
+// computed edge is reached, and what that operand implies in turn.
+func TruthImplies(v ssa.Value) []Cond { return truthImplies(v, 0) }
+
+func truthImplies(v ssa.Value, depth int) []Cond {
+	o := Origin(v)
+	out := []Cond{CondOf(o, true)}
+	phi, ok := o.(*ssa.Phi)
+	if !ok || depth > 6 {
+		return out
+	}
+	idx := -1
+	for i, e := range phi.Edges {
+		if k, isC := e.(*ssa.Const); isC && k.Value != nil && k.Value.String() == "false" {
+			continue
+		}
+		if idx >= 0 {
+			return out
+		}
+		idx = i
+	}
+	if idx < 0 {
+		return out
+	}
+	from := phi.Block().Preds[idx]
+	out = append(out, FactsAt(from.Instrs[len(from.Instrs)-1])...)
+	out = append(out, truthImplies(phi.Edges[idx], depth+1)...)
+	return out
+}
